@@ -302,3 +302,129 @@ pub fn keep_le_plus_two(cks: &[Ck], at: Tk) -> usize {
     let end = at.as_u64() + 1;
     cks.iter().filter(|c| c.tick.as_u64().saturating_sub(1) <= end).count()
 }
+
+// ------------------------------------------------------------------ round 2 primitives
+
+/// closed tag dispatch: unlisted tags reach only an error
+pub fn tag_closed(tag: u8) -> Result<Option<u32>, E> {
+    match tag {
+        0 => Ok(None),
+        1 => Ok(Some(7)),
+        _ => Err(E),
+    }
+}
+
+/// open tag dispatch: every non-zero tag is accepted
+pub fn tag_open(tag: u8) -> Result<Option<u32>, E> {
+    if tag == 0 {
+        return Ok(None);
+    }
+    Ok(Some(7))
+}
+
+/// closed, written as an if-chain
+pub fn tag_closed_chain(tag: u8) -> Result<Option<u32>, E> {
+    if tag == 0 {
+        Ok(None)
+    } else if tag == 1 {
+        Ok(Some(7))
+    } else {
+        Err(E)
+    }
+}
+
+/// a fold that consumes every operand
+pub fn fold_all(xs: &[u32]) -> u32 {
+    let mut acc = 0u32;
+    for x in xs {
+        acc |= *x;
+    }
+    acc
+}
+
+/// a fold that leaves early
+pub fn fold_early_exit(xs: &[u32]) -> u32 {
+    let mut acc = u32::MAX;
+    for x in xs {
+        acc &= *x;
+        if acc == 0 {
+            break;
+        }
+    }
+    acc
+}
+
+/// rejection relation `!=` (and its equivalent spellings)
+pub fn rel_ne(h: &Hdr, data: &[u8]) -> Result<(), GErr> {
+    if compute(data) != h.expected {
+        return Err(GErr::Mismatch);
+    }
+    Ok(())
+}
+
+pub fn rel_ne_negated_eq(h: &Hdr, data: &[u8]) -> Result<(), GErr> {
+    if !(compute(data) == h.expected) {
+        return Err(GErr::Mismatch);
+    }
+    Ok(())
+}
+
+/// weakened: only a smaller value is rejected
+pub fn rel_lt(h: &Hdr, data: &[u8]) -> Result<(), GErr> {
+    if compute(data) < h.expected {
+        return Err(GErr::Mismatch);
+    }
+    Ok(())
+}
+
+/// the gate only runs when another field says so
+pub fn rel_conditional(h: &Hdr, data: &[u8]) -> Result<(), GErr> {
+    if h.len == 3 {
+        if compute(data) != h.expected {
+            return Err(GErr::Mismatch);
+        }
+    }
+    Ok(())
+}
+
+fn extracted_check(expected: u32, data: &[u8]) -> Result<(), GErr> {
+    if compute(data) != expected {
+        return Err(GErr::Mismatch);
+    }
+    Ok(())
+}
+
+/// the same gate as `rel_ne`, moved into a helper and called from a closure
+pub fn rel_ne_in_helper(h: &Hdr, chunks: &[&[u8]]) -> Result<(), GErr> {
+    chunks.iter().try_for_each(|c| extracted_check(h.expected, c))?;
+    Ok(())
+}
+
+/// zip-driven comparison without / with a length gate
+pub fn zip_no_length_gate(a: &[u32], b: &[u32]) -> Result<(), GErr> {
+    for (x, y) in a.iter().zip(b) {
+        if x != y {
+            return Err(GErr::Mismatch);
+        }
+    }
+    Ok(())
+}
+
+pub fn zip_with_length_gate(a: &[u32], b: &[u32]) -> Result<(), GErr> {
+    if a.len() != b.len() {
+        return Err(GErr::Mismatch);
+    }
+    for (x, y) in a.iter().zip(b) {
+        if x != y {
+            return Err(GErr::Mismatch);
+        }
+    }
+    Ok(())
+}
+
+/// `x.ok_or(e)?` is the same absence edge as `let Some(x) = .. else { return Err(e) }`
+pub fn presence_via_ok_or(m: &std::collections::BTreeMap<u32, u32>, k: u32, out: &mut Vec<u32>) -> Result<(), E> {
+    let v = m.get(&k).ok_or(E)?;
+    out.push(*v);
+    Ok(())
+}
